@@ -53,3 +53,40 @@ Check C09_owned_recover_partial : forall (E : EdOps) (LW : EdLaws E) (Hs : hs_fu
 Print Assumptions C09_recover_scalar.
 Print Assumptions C09_recover_partial.
 Print Assumptions C09_owned_recover_partial.
+
+(* ==== end-to-end compositions (Proofs/ScanEndToEnd.v) ============================================================ *)
+From MRS Require Import Proofs.ScanEndToEnd.
+
+(* composition with C07 completeness: for an output built by the sender of Spec/Sender.v for an in-range address of the wallet
+   (v, s*G) (key = first TxPublicKey or the additional key at its position, correct or absent tag), a successful scan reports it and
+   OwnedTxOut::recover_key returns x with x*G = P, the sender's one-time public key Hs(D||k)G + S_d (no no-other-match hypothesis
+   is needed: whichever key / index the scan reports for that position, the recovered scalar opens the output's key) *)
+Theorem C09_recovered_key_opens_sender_output_partial : forall (E : EdOps) (LW : EdLaws E) (Hs : hs_fun) (Hb : bytes -> bytes) v s a b c d p rct l fields main k o maj min r,
+  prefix_check_outputs Hs Hb v (pk_from_priv s) a b c d p rct = SOk l ->
+  raw_try_parse valid_pk_b (extra p) = Ok fields -> tx_pubkey fields = Some main ->
+  nth_error (outputs p) k = Some o -> (N.of_nat k < 2 ^ 64)%N ->
+  in_ranges a b c d (maj, min) ->
+  let dst := wallet_address Hs v (smul s G) maj min in
+  let snt := send Hs Hb r dst (N.of_nat k) in
+  let K := compress (sn_key snt) in
+  (o_target o = TKey (compress (sn_onetime snt)) \/ o_target o = TTagged (compress (sn_onetime snt)) (b2n (sn_tag snt))) ->
+  (K = main \/ nth_error (adds_of fields) k = Some K) ->
+  exists w x, In w l /\ ow_pos w = N.of_nat k /\ ow_out w = o /\
+    owned_recover_key Hs v s w = Ok x /\ smul x G = sn_onetime snt /\ pk_from_priv x = compress (sn_onetime snt).
+Proof. intros E LW Hs Hb. exact (sender_recover Hs Hb). Qed.
+
+
+Check C09_recovered_key_opens_sender_output_partial : forall (E : EdOps) (LW : EdLaws E) (Hs : hs_fun) (Hb : bytes -> bytes) v s a b c d p rct l fields main k o maj min r,
+  prefix_check_outputs Hs Hb v (pk_from_priv s) a b c d p rct = SOk l ->
+  raw_try_parse valid_pk_b (extra p) = Ok fields -> tx_pubkey fields = Some main ->
+  nth_error (outputs p) k = Some o -> (N.of_nat k < 2 ^ 64)%N ->
+  in_ranges a b c d (maj, min) ->
+  let dst := wallet_address Hs v (smul s G) maj min in
+  let snt := send Hs Hb r dst (N.of_nat k) in
+  let K := compress (sn_key snt) in
+  (o_target o = TKey (compress (sn_onetime snt)) \/ o_target o = TTagged (compress (sn_onetime snt)) (b2n (sn_tag snt))) ->
+  (K = main \/ nth_error (adds_of fields) k = Some K) ->
+  exists w x, In w l /\ ow_pos w = N.of_nat k /\ ow_out w = o /\
+    owned_recover_key Hs v s w = Ok x /\ smul x G = sn_onetime snt /\ pk_from_priv x = compress (sn_onetime snt).
+
+Print Assumptions C09_recovered_key_opens_sender_output_partial.
